@@ -147,5 +147,53 @@ class C10(Harness):
     def shape(self, cfg, inputs, clause):
         return '%s/%s' % (cfg['mode'], cfg['feat'])
 
+    # ---------------------------------------------------------------- engine B: Kani cross-check (compiled code)
+    def start_background(self, tier):
+        """cargo kani on harness b1_single_char_width (kani/src/lib.rs): every scalar value except ESC through the
+        real compiled display_width and the real unicode-width tables.  Runs while engine A explores."""
+        import os
+        import shutil
+        import subprocess
+        import hashlib
+        verif = os.path.dirname(os.path.dirname(os.path.abspath(__file__)))
+        repo = os.path.realpath(os.environ.get('VERIF_REPO', '/repo'))
+        scratch = os.environ.get('VERIF_SCRATCH', '/var/tmp/verif-scratch')
+        crate = os.path.join(verif, 'kani')
+        if repo != '/repo':
+            crate = os.path.join(scratch, 'kani-' + hashlib.sha1(repo.encode()).hexdigest()[:10])
+            shutil.rmtree(crate, ignore_errors=True)
+            shutil.copytree(os.path.join(verif, 'kani'), crate, ignore=shutil.ignore_patterns('target'))
+            t = open(os.path.join(crate, 'Cargo.toml')).read().replace('path = "/repo"', 'path = "%s"' % repo)
+            open(os.path.join(crate, 'Cargo.toml'), 'w').write(t)
+        env = dict(os.environ)
+        env['CARGO_NET_OFFLINE'] = 'true'
+        env.pop('RUSTFLAGS', None)
+        tgt = os.path.join(scratch, 'kani-target')
+        os.makedirs(tgt, exist_ok=True)
+        cmd = 'ulimit -v 12000000; exec timeout 600 cargo kani --harness b1_single_char_width --target-dir %s' % tgt
+        import time
+        return {'p': subprocess.Popen(['bash', '-c', cmd], cwd=crate, env=env, stdout=subprocess.PIPE,
+                                      stderr=subprocess.STDOUT, text=True), 't0': time.time(), 'crate': crate}
+
+    def finish_background(self, bg):
+        import re
+        import time
+        out, _ = bg['p'].communicate()
+        secs = time.time() - bg['t0']
+        ok = 'VERIFICATION:- SUCCESSFUL' in out and bg['p'].returncode == 0
+        failed = 'VERIFICATION:- FAILED' in out
+        m = re.search(r'\*\* (\d+) of (\d+) failed', out)
+        cov = re.search(r'(\d+) of (\d+) cover properties satisfied', out)
+        res = {'engine': 'kani 0.68 / CBMC (cadical)', 'harness': 'b1_single_char_width', 'unwind': 3,
+               'claim': 'for every Unicode scalar value except ESC: display_width(c) == UnicodeWidthChar::width(c).unwrap_or(0) '
+                        'and display_width(c) <= len_utf8(c), on the compiled crate with the real tables; unwinding '
+                        'assertions on', 'seconds': round(secs, 1), 'successful': ok,
+               'checks': (int(m.group(2)) if m else None), 'failed_checks': (int(m.group(1)) if m else None),
+               'covers_satisfied': cov.group(0) if cov else None}
+        status = 'ok' if ok else ('disagree' if failed else 'inconclusive')
+        if not ok:
+            res['tail'] = out[-1500:]
+        return status, res
+
 
 HARNESS = C10()
